@@ -62,7 +62,7 @@ class Tracer:
         return self.ids.get(id(inst))
 
     def conn_idx(self, conn):
-        return self.idx(conn._storage)
+        return self.idx(conn._normal_storage)       # (_storage is the TmpStore while savepoints exist)
 
     def lines(self):
         return [l if isinstance(l, str) else ' '.join(str(x) for x in l) for l in self.ops]
@@ -198,6 +198,16 @@ class Tracer:
 
     def pre_commit(self, t, conn):
         pass
+
+    def rollback(self, t, conn, saved):
+        """savepoint rollback = the model's abort (all own changes and their cache entries go)
+        followed by the changes the savepoint had recorded"""
+        i = self.conn_idx(conn)
+        self.emit('abort %d' % i, 'ok')
+        self.pending[i] = {}
+        for oid in sorted(saved):
+            self.pending[i][oid] = saved[oid]
+            self.emit('write %d %d %d' % (i, oid, saved[oid]), 'ok')
 
     def post_commit(self, t, conn):
         self.c(t)['commit'] = None
@@ -363,6 +373,10 @@ def check_line(op, exp, got):
     if isinstance(exp, str):
         return None if got == exp else 'impl %s, model %s' % (exp, got)
     want = '%s serial=%d' % (exp['kind'], exp['serial'])
+    if exp['kind'] == 'load' and got.startswith('hit '):
+        # the code may hold FEWER objects in its cache than the model (ghostified blobs / resolved
+        # objects after a commit): a load where the model has a hit is fine if it is the same revision
+        got = 'load ' + got[4:]
     if exp.get('val') is not None:
         want += ' val=%d' % exp['val']
         return None if got == want else 'impl %s, model %s' % (want, got)
